@@ -13,6 +13,31 @@ out.append("## 12. Per-property record (generated from the committed artefacts)\
 out.append("For each property: the theorems that `coq/Props/Cxx.v` contains (each closed by `exact`/`eapply`, each followed by "
            "`Print Assumptions`, counted as obligations by the check), the scope text registered in MANIFEST.json, and the "
            "worker's design note `design/Cxx.md` (model, tie, partial parts, findings, self-seeded bugs).\n")
+# summary table
+kf0 = json.load(open(os.path.join(V, "known_findings.json")))
+seed_rows = {}
+rp = os.path.join(V, "seeded/RESULTS.md")
+if os.path.exists(rp):
+    for line in open(rp):
+        m = re.match(r"\| (C\d+)-(\d+) \| (C\d+) \|.*\| ([^|]*) \|\s*$", line)
+        if m:
+            seed_rows.setdefault(m.group(3), []).append(m.group(4))
+out.append("| id | theorems in Props | seeded changes caught (now / at first) | known findings | repaired defects |")
+out.append("|----|-------------------|------------------------------------------|----------------|------------------|")
+for p in props:
+    i = p["id"]
+    pv = os.path.join(V, "coq/Props/%s.v" % i)
+    nth = 0
+    if os.path.exists(pv):
+        src = re.sub(r"\(\*.*?\*\)", " ", open(pv).read(), flags=re.S)
+        nth = len(re.findall(r"^\s*(Theorem|Lemma|Corollary|Example)\s+", src, flags=re.M))
+    rows = seed_rows.get(i, [])
+    now = sum(1 for r in rows if "CAUGHT" in r)
+    first = sum(1 for r in rows if r.strip().startswith("CAUGHT"))
+    nk = ", ".join(f["id"] for f in kf0["findings"] if f["property"] == i) or "-"
+    nf = sum(1 for f in kf0["fixed"] if ("property=%s " % i) in (f if isinstance(f, str) else json.dumps(f)))
+    out.append("| %s | %d | %d/%d now, %d/%d at first | %s | %d |" % (i, nth, now, len(rows), first, len(rows), nk, nf))
+out.append("")
 for p in props:
     i = p["id"]
     out.append("### %s - %s\n" % (i, p["title"]))
